@@ -154,8 +154,13 @@ def run_case(case, tracer, tracer_mods):
         sup = []
         idxs = []
         modified = []
+        dbuf = arr([0.0, 0.0, 0.0])
         for i, d in enumerate(case["dirs"]):
-            da = arr(d)
+            if case.get("shared_dir_buffer"):
+                dbuf[...] = d            # the SAME array object for every query, new content
+                da = dbuf
+            else:
+                da = arr(d)
             sup.append(fl(col.support_function(da)))
             if not np.array_equal(da, arr(d), equal_nan=True):
                 modified.append(f"support_function(dirs[{i}]) modified its argument")
